@@ -131,6 +131,8 @@ enum Op {
     /// like CatchOwningGuard, but the guard's Drop runs `catch_panic(|| panic!(..))`: a nested frame that itself catches
     /// a panic while the outer frame's panic is unwinding
     CatchOwningPanickingGuard(Vec<Op>),
+    /// like CatchOwningPanickingGuard, but the nested frame recovers its panic with a plain `catch_unwind` and returns
+    CatchOwningRecoveringGuard(Vec<Op>),
     /// panic with a `&'static str` payload (the hook reads `&str` and `String` payloads through different downcasts)
     PanicStatic,
     /// panic with a payload that is neither `&str` nor `String`: there is no message to demand, but the text
@@ -149,6 +151,7 @@ fn render(ops: &[Op]) -> String {
             Op::Catch(b) => format!("catch{{{}}}", render(b)),
             Op::CatchOwningGuard(b) => format!("catch+dropguard{{{}}}", render(b)),
             Op::CatchOwningPanickingGuard(b) => format!("catch+dropguard(catch{{panic}}){{{}}}", render(b)),
+            Op::CatchOwningRecoveringGuard(b) => format!("catch+dropguard(catch{{recovered-panic}}){{{}}}", render(b)),
             Op::RecoveredPanic => "recovered-panic".to_string(),
             Op::Panic => "panic".to_string(),
             Op::CaughtBurst(n) => format!("{n} x catch{{panic}}"),
@@ -185,10 +188,11 @@ fn gen_ops(budget: &mut usize, depth: usize) -> Vec<Op> {
             7 => out.push(Op::RecoveredPanic),
             _ => {
                 let body = gen_ops(budget, depth + 1);
-                out.push(match choose_w(&[8, 1, 1], "prog.dropguard") {
+                out.push(match choose_w(&[8, 1, 1, 1], "prog.dropguard") {
                     0 => Op::Catch(body),
                     1 => Op::CatchOwningGuard(body),
-                    _ => Op::CatchOwningPanickingGuard(body),
+                    2 => Op::CatchOwningPanickingGuard(body),
+                    _ => Op::CatchOwningRecoveringGuard(body),
                 });
             }
         }
@@ -201,6 +205,8 @@ struct CatchInDrop {
     /// (task, message): the nested frame panics with this message - only if catching is enabled at that moment (a
     /// transparent catch_panic would let the panic out of a destructor, which aborts the process when unwinding)
     inner: Option<(usize, String)>,
+    /// the nested frame's panic is recovered by a plain `catch_unwind` *inside* the frame, which then returns normally
+    recovers: bool,
 }
 
 impl Drop for CatchInDrop {
@@ -218,6 +224,7 @@ impl Drop for CatchInDrop {
                 let m2 = msg.clone();
                 let mut hs_at_panic = HookState::InTransit;
                 let hs_ref = &mut hs_at_panic;
+                let recovers = self.recovers;
                 let r = catch_panic(AssertUnwindSafe(move || -> u8 {
                     // (entering the frame is a scheduling point: who holds the hook is read here, right at the panic)
                     let hs = hook_state();
@@ -228,9 +235,21 @@ impl Drop for CatchInDrop {
                         HookState::NotInstalled => Some(true),
                     };
                     g(|s| s.expect.push((task, m2.clone(), expect)));
+                    if recovers {
+                        let m3 = m2.clone();
+                        let _ = catch_unwind(AssertUnwindSafe(move || -> u8 { panic!("{}", m3) }));
+                        return 7;
+                    }
                     panic!("{}", m2)
                 }));
                 let hs = hs_at_panic;
+                if recovers {
+                    kernel::count("c19.recovered_in_destructor_frame");
+                    if r != Ok(7) {
+                        kernel::fail(v("err-without-panic", "frame-in-destructor", format!("task {task}: the nested frame recovered its panic itself and returned 7, catch_panic gave {:?}", r.as_ref().map_err(|t| t.lines().next().unwrap_or("").to_string()))));
+                    }
+                    return;
+                }
                 match r {
                     Ok(_) => kernel::fail(v("panic-swallowed", "frame-in-destructor", format!("task {task}: the nested frame's body panicked with {msg:?} but catch_panic returned Ok"))),
                     Err(text) => {
@@ -365,9 +384,10 @@ fn exec_ops(ops: &[Op], m: &mut TaskModel) {
                 }
                 kernel::count("c19.caught_burst");
             }
-            Op::Catch(body) | Op::CatchOwningGuard(body) | Op::CatchOwningPanickingGuard(body) => {
+            Op::Catch(body) | Op::CatchOwningGuard(body) | Op::CatchOwningPanickingGuard(body) | Op::CatchOwningRecoveringGuard(body) => {
                 let with_guard = !matches!(op, Op::Catch(_));
-                let guard_msg = matches!(op, Op::CatchOwningPanickingGuard(_)).then(|| {
+                let recovers = matches!(op, Op::CatchOwningRecoveringGuard(_));
+                let guard_msg = matches!(op, Op::CatchOwningPanickingGuard(_) | Op::CatchOwningRecoveringGuard(_)).then(|| {
                     m.counter += 1;
                     let msg = format!("g{}-{}-{};", m.run, m.task, m.counter);
                     m.msgs.push(msg.clone());
@@ -384,7 +404,7 @@ fn exec_ops(ops: &[Op], m: &mut TaskModel) {
                 let r = {
                     let mm = &mut *m;
                     catch_panic(AssertUnwindSafe(move || {
-                        let _guard = with_guard.then_some(CatchInDrop { inner: guard_msg });
+                        let _guard = with_guard.then_some(CatchInDrop { inner: guard_msg, recovers });
                         exec_ops(body, mm);
                         42u32
                     }))
